@@ -137,26 +137,19 @@ IFStatement * IFStatement::parse(Parser& p, Context& ctx)
     for (;;)
     {
       Expression * exp = ParseExpression::expression(p, ctx);
+      /* the rule owns the expression from now on, whatever happens next */
+      s->_rules.push_back(std::make_pair(exp, nullptr));
       const Type& exp_type = exp->type(ctx);
       if (exp_type.level() > 0 ||
               (exp_type != Type::BOOLEAN && exp_type != Type::NO_TYPE))
-      {
-        delete exp;
         throw ParseError(EXC_PARSE_OTHER_S, "Boolean expression required for IF.");
-      }
       TokenPtr t = p.pop();
       if (t->code == ')')
-      {
-        delete exp;
         throw ParseError(EXC_PARSE_MM_PARENTHESIS, t);
-      }
       if (t->code != TOKEN_KEYWORD || t->text != KEYWORDS[STMT_THEN])
-      {
-        delete exp;
         throw ParseError(EXC_PARSE_OTHER_S, "Missing THEN keyword in IF statement.", t);
-      }
       Executable * exec = parse_clause(p, ctx, s);
-      s->_rules.push_back(std::make_pair(exp, exec));
+      s->_rules.back().second = exec;
       t = p.pop();
       if (t->text == KEYWORDS[STMT_ELSIF])
         continue; /* process next rule */
